@@ -337,4 +337,51 @@ def run(tier):
     res.instance("C16.R5", "matrixSslEncodeClientHello: clientRandom is drawn only for a first transmission (%d path states)" % n5, bad5 is None, finding=f_)
     if n5 == 0:
         raise AnalysisBroken("C16.R5: no psGetPrngLocked(clientRandom) reached in matrixSslEncodeClientHello")
+
+    # ---------------------------------------------------------------- R6: only the expected (or a newer) epoch reaches the window
+    res.rule("C16.R6", "the replay window holds one epoch: a record reaches dtlsChkReplayWindow only when its epoch compared equal to "
+                       "the expected epoch or strictly newer (dtlsCompareEpoch result 0 or 1 established on the path)")
+    dec = prog.fn("matrixSslDecodeTls12AndBelow")
+    cmp_sites = []
+    for b in dec.blocks:
+        for i, ln, x in cu.block_exprs(b):
+            for m in walk(x):
+                if m.get("k") == "bin" and m["op"] == "=" and (strip(m["l"]) or {}).get("k") == "var":
+                    r_ = strip(m["r"])
+                    if r_ is not None and r_.get("k") == "call" and r_.get("fn") == "dtlsCompareEpoch" and \
+                            any(q.get("k") == "mem" and q.get("f") == "expectedEpoch" for a in r_.get("a", []) for q in walk(a)):
+                        cmp_sites.append((b["id"], i, ln, strip(m["l"])["n"]))
+    for (bid, idx, ln, var) in cmp_sites:
+        def reassigned(x, var=var):
+            return any(m.get("k") == "bin" and m["op"] in ASSIGN_OPS and (strip(m["l"]) or {}).get("k") == "var" and
+                       strip(m["l"]).get("n") == var for m in walk(x))
+
+        def epoch_ok_edge(b, k, var=var):
+            t = b.get("term")
+            if t is None or "c" not in t or len(b["succ"]) != 2:
+                return False
+            for (txt, tr, nd) in cu._cond_atoms(t["c"], k == 0):
+                if txt == var and not tr:
+                    return True                 # rc == 0
+                if txt == "(%s == 1)" % var and tr:
+                    return True                 # strictly newer epoch
+                if txt in ("(%s > 0)" % var, "(%s >= 0)" % var) and tr:
+                    return True
+                if txt in ("(%s < 0)" % var, "(%s <= 0)" % var) and not tr and txt.endswith("< 0)"):
+                    return True
+            return False
+
+        def is_window(x):
+            return any(m.get("k") == "call" and m.get("fn") == "dtlsChkReplayWindow" for m in walk(x))
+        esc = cu.escapes(dec, (bid, idx), reassigned, exempt_edge=epoch_ok_edge, target_expr=is_window)
+        f_ = None
+        if esc is not None:
+            f_ = Finding(PROP, "C16.R6", dec.name, "older-epoch record reaches the replay window",
+                         "%s:%s matrixSslDecodeTls12AndBelow(): from %s = dtlsCompareEpoch(rec.epoch, expectedEpoch) the replay-window test at "
+                         "line %s is reachable via lines %s without a branch outcome %s == 0 or %s == 1: a record of an OLDER epoch is judged "
+                         "against the newest epoch's window (its sequence number is unrelated to it), so an application record that was "
+                         "already delivered is decrypted with the unchanged keys and delivered a second time" % (
+                             dec.relfile, ln, var, esc[-1][1], [p_[1] for p_ in esc[-7:-1]], var, var), file=dec.relfile, line=ln)
+        res.instance("C16.R6", "matrixSslDecodeTls12AndBelow:%s epoch comparison result gates the replay-window test" % ln, esc is None, finding=f_)
+    res.floor("C16.R6", 1)
     return res.finish()
